@@ -129,6 +129,29 @@ func verifUnknownMarks() (int, []string) {
 			}
 		}
 	}
+	// a known for_each collection with an unknown value inside one element: still one block per element
+	{
+		pspec := &hcldec.BlockListSpec{TypeName: "b", Nested: hcldec.ObjectSpec{"port": &hcldec.AttrSpec{Name: "port", Type: cty.Number}}}
+		src := "dynamic \"b\" {\n for_each = items\n content {\n  port = b.value.port\n }\n}\nb {\n port = 1\n}\n"
+		want := "b {\n port = u\n}\nb {\n port = 80\n}\nb {\n port = 1\n}\n"
+		f1, d1 := hclsyntax.ParseConfig([]byte(src), "t.hcl", hcl.InitialPos)
+		f2, d2 := hclsyntax.ParseConfig([]byte(want), "w.hcl", hcl.InitialPos)
+		if !d1.HasErrors() && !d2.HasErrors() {
+			n++
+			ctx := &hcl.EvalContext{Variables: map[string]cty.Value{
+				"u": cty.UnknownVal(cty.Number),
+				"items": cty.ListVal([]cty.Value{
+					cty.ObjectVal(map[string]cty.Value{"port": cty.UnknownVal(cty.Number)}),
+					cty.ObjectVal(map[string]cty.Value{"port": cty.NumberIntVal(80)}),
+				}),
+			}}
+			v1, e1 := hcldec.Decode(Expand(f1.Body, ctx), pspec, ctx)
+			v2, e2 := hcldec.Decode(f2.Body, pspec, ctx)
+			if e1.HasErrors() != e2.HasErrors() || !v1.RawEquals(v2) {
+				fails = append(fails, fmt.Sprintf("input=%q for_each with an unknown value inside an element: the expansion decodes to %#v, the written-out blocks to %#v", src, v1, v2))
+			}
+		}
+	}
 	return n, fails
 }
 
